@@ -505,6 +505,13 @@ func ruleNilRes(c *Ctx) {
 						}
 					}
 				}
+				// the conditions in force say the error of that very call is nil (I1: a nil result comes only with
+				// a non-nil error), whatever statement shape established it
+				for _, cl := range c.literalsAt(fd, st) {
+					if k := c.errCheckKind(cl.e, errv); (k == "nil" && !cl.neg || k == "nonnil" && cl.neg) && cl.e.Pos() > as.End() {
+						guarded = true
+					}
+				}
 				c.ob(rule, key, st.Pos(), guarded || plain,
 					"result of the expander is dereferenced where it may be nil: after a stop-on-error test that lets a non-nil error through (ContinueOnError), only an explicit != nil guard makes this safe")
 				return true
